@@ -20,6 +20,14 @@ CORPUS = {
                   "class C:\n    pass\ndef want(p: P) -> None:\n    pass\ndef f() -> None:\n    want(C())\n    x: P = C()\n    reveal_type(x)\n"),
     "overl.py": ("from typing import overload, Union\n@overload\ndef o(x: int) -> int: ...\n@overload\ndef o(x: str) -> str: ...\ndef o(x: object) -> object:\n    return x\n"
                  "def f(u: Union[int, str, bytes]) -> None:\n    reveal_type(o(u))\n"),
+    "in_lit.py": ("def want(x: int) -> None:\n    pass\ndef f(s: str, n: int) -> None:\n    if s in ('alpha', 'beta', 'gamma', 'delta', 'epsilon'):\n        reveal_type(s)\n        want(s)\n"
+                  "    if n not in [10, 20, 30, 40, 50]:\n        return\n    reveal_type(n)\n"),
+    "nested.py": ("def outer(c: bool) -> None:\n    x = 1\n    x = 'a'\n    x = None\n    x = 2.5\n    x = b'b'\n    x = (1,)\n    def inner() -> None:\n        reveal_type(x)\n    inner()\n"),
+    "a_open.py": "def f(path: str) -> None:\n    open(path)\n    len(path)\n    sorted(path)\n",
+    "b_open.py": ("from typing import TextIO, Sized, List\ndef f(path: str) -> TextIO:\n    return open(path)\ndef g(path: str) -> int:\n    return len(path)\n"
+                  "def h(path: str) -> List[str]:\n    return sorted(path)\n"),
+    "try_defs.py": ("def c() -> bool:\n    return True\ndef f() -> None:\n    x = 0\n    try:\n        x = 1\n        if c():\n            x = 2\n        x = 3\n        x = 4\n        c()\n"
+                    "    except Exception:\n        reveal_type(x)\n    with open('f') as fh:\n        y = 1\n        y = 2\n        y = 3\n    reveal_type(y)\n"),
 }
 
 RUNNER = r'''
